@@ -1,5 +1,5 @@
 (* The STORED (stack-item) form of a contract manifest: Manifest.ToStackItem / FromStackItem and the forms of Group,
-   ABI, Method, Parameter, Event (pkg/smartcontract/manifest) — how ContractManagement stores contracts and how
+   ABI, Method, Param, Event (pkg/smartcontract/manifest) — how ContractManagement stores contracts and how
    manifests reach contracts.  Built on the C16 model of the permission part (coq/Auth/PermStore.v: Permission and
    PermissionDesc <-> item, wildcard <> empty list), which is imported, not modified.  Items are abstracted to the
    shape the code inspects (as in PermStore): Null, a byte string of a given length denoting an abstract number,
